@@ -236,7 +236,7 @@ def body(chk):
 RULE = ("kernel cases: perfect_op / opposite_op / independent_op on stub operands (n in 1..8, all sign kinds, ops + and x) compared "
         "bit-exactly with the model and, in exact rationals, with the sorted endpoints of the step-wise interval combinations; "
         "API cases: Staircase operands at 200 steps through add/sub/mul/div(dependency in p,o,i) and bare operators inside `with dependency(d)`, "
-        "compared with the model in Coq and with the random-set reference (block membership for 'i'). distinct key = (function/op, dependency, operand kinds, n, bare)")
+        "compared with the model in Coq and with the random-set reference (block membership for 'i'); the numpy-function route (np.add/subtract/multiply/divide, second operand a Staircase or a Leaf) and the UncertainNumber operators (p-box / Distribution constructs) under p, o, i are decided the same way. distinct key = (function/op, dependency, operand kinds, n, bare)")
 TB = ["hand-written Model/Pbox.v + Model/PboxArith.v tied by in-Coq differential run",
       "condensation index = floor(i*(len-1)/(n-1)) on exact integers (numpy computes it in floats; validated by the run)",
       "Staircase moments use the ECDF fallback in the harness process (LP disabled for speed)"]
